@@ -79,6 +79,9 @@ def build_call(case):
     if sp == 'dbY': return (lambda: dt('%d %s %d' % (d, MONTHS[m - 1][:3], y), dialect=case.get('dia', 'uk'))), ('t', t)
     if sp == 'ymd': return (lambda: ymd(T)), ('t', t - tod)
     if sp == 'dt2str': return (lambda: dt(dt2str(T))), ('t', t)
+    use_ymd = sp.startswith('ymdstr:')
+    if use_ymd:
+        sp = sp[len('ymdstr:'):]
     k, sep, pad, dia = sp.split(':')
     a, b = (d, m) if k == 'dmy' else (m, d)
     f = '%02d' if pad == '1' else '%d'
@@ -90,7 +93,7 @@ def build_call(case):
         exp = ('err',)          # unambiguous, other dialect: must be rejected
     else:
         exp = ('free',)         # ambiguous: reads as the other date; the property does not constrain it
-    return (lambda: dt(s, dialect=dia)), exp
+    return ((lambda: ymd(s, dialect=dia)) if use_ymd else (lambda: dt(s, dialect=dia))), exp
 
 def impl(case):
     if case['sp'] == 'allsp':
@@ -135,7 +138,7 @@ def coq_case(case):
     if sp == 'int_ymd': return '(SpNum %d)' % (y * 10000 + m * 100 + d)
     if sp == 'ordinal': return '(SpNum %d)' % (case['t'] // DAYUS)
     if ':' in sp:
-        k, sep, pad, dia = sp.split(':')
+        k, sep, pad, dia = sp.replace('ymdstr:', '').split(':')
         a, b = (d, m) if k == 'dmy' else (m, d)
         return '(SpDMY %s %d %d %d)' % ('true' if dia == 'us' else 'false', a, b, y)
     return '(SpFields %d %d %d %d)' % (y, m, d, tod if sp not in ('date', 'np_D', 'ymd8', 'dBY', 'BdY', 'dbY') else 0)
@@ -152,8 +155,8 @@ def nontrivial(case, result):
 def shape(case):
     sp = case['sp']
     if ':' in sp:
-        k, sep, pad, dia = sp.split(':')
-        return '%s/%s' % (k, dia)
+        k, sep, pad, dia = sp.replace('ymdstr:', '').split(':')
+        return ('ymd:' if sp.startswith('ymdstr:') else '') + '%s/%s' % (k, dia)
     return sp
 
 # ---------------- generation
@@ -184,6 +187,8 @@ def gen_cases(rng, tier):
             cases.append(c)
         if tier == 'thorough' or i % 3 == 0:
             cases.append({'sp': 'cal', 'n': n})
+        if i % 4 == 0:      # ymd() on dialect strings (the dialect must reach the parser)
+            cases.append({'sp': 'ymdstr:' + rng.choice([x for x in DATE_SP if ':' in x]), 't': t0})
         # month names under the US dialect too
         if i % 5 == 0:
             cases.append({'sp': rng.choice(['dBY', 'BdY', 'dbY']), 't': t0, 'dia': 'us'})
